@@ -630,6 +630,11 @@ def enum_dir(max_size: int):
                 for logfile in ("in:antismash.log", "out:run.log"):     # configured, nothing there yet
                     yield {"mode": mode, "outdir": outdir, "exists": "dir", "entries": [], "logfile": logfile,
                            "cwd": None, "classes": []}
+        # input names: the run mode is decided by the name ending in ".json", nothing else
+        for ext in (".fasta", ".gbk.gz", ".json.gbk"):
+            for outdir in ("given", "derived"):
+                for classes in ((), ("other_file",), ("input_dir",), ("input_dir", "prev_json")):
+                    yield dict(_dir_spec(classes, "fresh", outdir, None), ext=ext)
         for size in range(0, max_size + 1):
             for classes in itertools.combinations(names, size):
                 chosen = set(classes)
